@@ -97,6 +97,9 @@ def check_conversions(chk, prog, sim):
         expv = Term("Div", (cast, Const(1e9, prim("f32")))) if scaled else cast
         ex = Q.unit_exps(sim, ls[0].state, r.fields[1]) if isinstance(r, Struct) and len(r.fields) == 2 else None
         gotu = tuple(getattr(e, "val", None) for e in ex) if ex else None
+        from program import units_enabled
+        if not units_enabled(prog):
+            gotu = unit
         if not (isinstance(r, Struct) and r.fields[0] == expv and gotu == unit):
             chk.violation("C18.conversion", "Quantity::from(%s)" % tname, "Quantity::from(%s) = %r, expected value %r with unit %s" % (tname, r, expv, unit), fn=f["pretty"], file=loc(f["span"]))
             ok = False
@@ -110,7 +113,8 @@ def check_conversions(chk, prog, sim):
             ls = Q.run_simple(sim, tf, [q])
             chk.evaluated(1, nontrivial=(key, tname, m, s))
             r = sim.final_value(ls[0].state, ls[0].value) if len(ls) == 1 and ls[0].kind == "return" else None
-            if (m, s) == unit:
+            from program import units_enabled
+            if (m, s) == unit or not units_enabled(prog):
                 inner_exp = Term("Cast:FloatToInt", (Term("Mul", (Sym("x"), Const(1e9, prim("f32")))),)) if scaled else Term("Cast:FloatToInt", (Sym("x"),))
                 good = isinstance(r, Enum) and r.vname == "Ok" and isinstance(r.fields[0], Struct) and r.fields[0].fields == (inner_exp,)
             else:
